@@ -37,6 +37,7 @@ type CheckConfig struct {
 	VirtualHorizonS      int              `json:"virtual_horizon_s"` // stall detection horizon (virtual seconds)
 	AllocEnumerate       int              `json:"alloc_enumerate"`   // symbolic allocation sizes up to this are enumerated
 	Note                 string           `json:"note"`
+	DelayBound           *int             `json:"delay_bound"`   // delay-bounded scheduling instead of the preemption bound (nil: off)
 	CrossSolvers         []string         `json:"cross_solvers"` // the exploration is repeated with these solvers and must agree
 
 	queryLog io.Writer
